@@ -66,6 +66,7 @@ pub struct Gen<'a> {
     next_id: usize,
     decls: Vec<(TypeDeclaration, bool)>,
     sigs: Vec<(Identifier, Vec<Kind>)>,
+    loops: Vec<bool>,
     cap: usize,
 }
 
@@ -142,9 +143,15 @@ impl<'a> Gen<'a> {
 
     /// establish `wanted` as the last entries of the context; if `exact`, nothing else survives
     fn arrange(&mut self, ctx: &mut Vec<ContextBinding>, wanted: &[Kind], depth: usize, steps: &mut Vec<Step>, defidx: usize, exact: bool) {
+        self.arrange_forced(ctx, wanted, depth, steps, defidx, exact, None)
+    }
+
+    /// like `arrange`; `forced` (a variable of the context) is taken for the first wanted entry
+    fn arrange_forced(&mut self, ctx: &mut Vec<ContextBinding>, wanted: &[Kind], depth: usize, steps: &mut Vec<Step>, defidx: usize, exact: bool, forced: Option<Identifier>) {
         // choose a source for every wanted entry: an existing variable (maybe shared) or a new value
         let mut chosen: Vec<Identifier> = Vec::new();
-        for k in wanted {
+        for (wi, k) in wanted.iter().enumerate() {
+            if wi == 0 { if let Some(f) = &forced { chosen.push(f.clone()); continue; } }
             let have = Self::find_kind(ctx, k);
             let reuse = !have.is_empty() && (depth == 0 || self.rng.chance(3, 4) || ctx.len() + 2 > self.cap);
             if reuse {
@@ -307,12 +314,57 @@ impl<'a> Gen<'a> {
                 if defidx + 1 >= self.sigs.len() { self.t_exit(&mut ctx, &mut steps, defidx) } else {
                     let j = defidx + 1 + self.rng.below(self.sigs.len() - defidx - 1);
                     let (name, kinds) = self.sigs[j].clone();
-                    self.arrange(&mut ctx, &kinds, depth - 1, &mut steps, defidx, true);
+                    let forced = if self.loops[j] {
+                        self.shrink_to(&mut ctx, self.cap - 1, &mut steps);
+                        let v = self.fresh("cnt");
+                        let n = 1 + self.rng.below(5) as i64;
+                        steps.push(Step::Lit(n, v.clone()));
+                        ctx.push(ContextBinding { var: v.clone(), chi: Chirality::Ext, ty: Ty::I64 });
+                        Some(v)
+                    } else { None };
+                    self.arrange_forced(&mut ctx, &kinds, depth - 1, &mut steps, defidx, true, forced);
                     Statement::Call(Call { label: name, args: TypingContext { bindings: vec![] } })
                 }
             }
         };
         fold(steps, term)
+    }
+
+    /// body of a counting loop: `if counter <= 0 { <any body> } else { <work>; self(counter - 1, ..) }`
+    pub fn loop_body(&mut self, ctx: Vec<ContextBinding>, depth: usize, defidx: usize) -> Statement {
+        let counter = ctx[0].var.clone();
+        let base = self.body(ctx.clone(), depth, defidx);
+        let mut c = ctx.clone();
+        let mut steps: Vec<Step> = Vec::new();
+        // work: allocate a few values (some are dropped again by later rearrangements)
+        let datas: Vec<Kind> = self.decls.iter().map(|d| (if d.1 { Chirality::Prd } else { Chirality::Cns }, Ty::Decl(d.0.name.clone()))).collect();
+        let nwork = self.rng.range(1, 3);
+        for _ in 0..nwork {
+            let k = self.rng.pick(&datas).clone();
+            let protect = vec![counter.clone()];
+            if c.len() + 2 > self.cap {
+                let keep: Vec<ContextBinding> = c.iter().filter(|b| b.var == counter).cloned().collect();
+                c = keep;
+                steps.push(Step::Subst(c.iter().map(|b| (b.clone(), b.var.clone())).collect()));
+            }
+            self.build_protected(&mut c, &k, 1, &mut steps, defidx, &protect);
+        }
+        // counter - 1
+        if c.len() + 2 > self.cap {
+            let keep: Vec<ContextBinding> = c.iter().filter(|b| b.var == counter).cloned().collect();
+            c = keep;
+            steps.push(Step::Subst(c.iter().map(|b| (b.clone(), b.var.clone())).collect()));
+        }
+        let one = self.fresh("one");
+        steps.push(Step::Lit(1, one.clone()));
+        c.push(ContextBinding { var: one.clone(), chi: Chirality::Ext, ty: Ty::I64 });
+        let dec = self.fresh("dec");
+        steps.push(Step::Op(counter.clone(), BinOp::Sub, one, dec.clone()));
+        c.push(ContextBinding { var: dec.clone(), chi: Chirality::Ext, ty: Ty::I64 });
+        let (name, kinds) = self.sigs[defidx].clone();
+        self.arrange_forced(&mut c, &kinds, 1, &mut steps, defidx, true, Some(dec));
+        let again = fold(steps, Statement::Call(Call { label: name, args: TypingContext { bindings: vec![] } }));
+        Statement::IfC(IfC { sort: IfSort::LessOrEqual, fst: counter, snd: None, thenc: Rc::new(base), elsec: Rc::new(again) })
     }
 
     fn t_exit(&mut self, ctx: &mut Vec<ContextBinding>, steps: &mut Vec<Step>, defidx: usize) -> Statement {
@@ -339,11 +391,14 @@ impl<'a> Gen<'a> {
 pub fn program(rng: &mut Rng, cap: usize) -> Prog {
     let decls = types();
     let ndefs = rng.range(1, 4);
-    let mut g = Gen { rng, next_id: 0, decls, sigs: Vec::new(), cap };
+    let mut g = Gen { rng, next_id: 0, decls, sigs: Vec::new(), loops: Vec::new(), cap };
     let param_kinds = [ext(), ext(), ext(), prd("List"), prd("Pair"), prd("Enum"), prd("Rec"), prd("Box"), cns("Cont"), cns("Fun"), cns("Obj")];
     for i in 0..ndefs {
         let n = if i == 0 { g.rng.below(4) } else { g.rng.below(6) };
-        let kinds: Vec<Kind> = (0..n).map(|_| if i == 0 { ext() } else { g.rng.pick(&param_kinds).clone() }).collect();
+        let mut kinds: Vec<Kind> = (0..n).map(|_| if i == 0 { ext() } else { g.rng.pick(&param_kinds).clone() }).collect();
+        let is_loop = i > 0 && g.rng.chance(1, 2);
+        if is_loop { if kinds.is_empty() { kinds.push(ext()); } else { kinds[0] = ext(); } }
+        g.loops.push(is_loop);
         let name = if i == 0 { id("main", 0) } else { id(&format!("f{i}"), 0) };
         g.sigs.push((name, kinds));
     }
@@ -352,7 +407,7 @@ pub fn program(rng: &mut Rng, cap: usize) -> Prog {
         let (name, kinds) = g.sigs[i].clone();
         let ctx: Vec<ContextBinding> = kinds.iter().map(|k| ContextBinding { var: g.fresh("p"), chi: k.0.clone(), ty: k.1.clone() }).collect();
         let depth = g.rng.range(1, 3);
-        let body = g.body(ctx.clone(), depth, i);
+        let body = if g.loops[i] { g.loop_body(ctx.clone(), depth, i) } else { g.body(ctx.clone(), depth, i) };
         defs.push(Def { name, context: TypingContext { bindings: ctx }, body });
     }
     let max_id = g.next_id;
